@@ -247,3 +247,24 @@ pub fn sizes_two_by_two() {
     kani::cover!(rp == 0 && w == 0, "witness flag from an empty-item stack only");
     core::mem::forget(tx);
 }
+
+//@ prop=C12 tier=quick secp=1 mem=16 timeout=1800 desc="1-in/1-out where the ONLY witness data is one pegin-witness item of symbolic length: has_witness is true and the figures include the whole witness section (two empty proofs, empty script stack, the pegin stack, the output's two empty proofs)"
+#[kani::proof]
+#[kani::unwind(6)]
+#[kani::stub(<core::any::TypeId as crate::stubs::traits::PEq>::eq, crate::stubs::typeid_eq_model)]
+pub fn sizes_pegin_witness_only() {
+    let w = sym_len();
+    let mut inp = base_input(0);
+    inp.is_pegin = true;
+    inp.witness.pegin_witness = vec![zeros(w)];
+    let tx = Transaction {
+        version: 2,
+        lock_time: LockTime::ZERO,
+        input: vec![inp],
+        output: vec![TxOut { asset: explicit_asset(), value: Value::Explicit(1), nonce: Nonce::Null, script_pubkey: Script::new(), witness: TxOutWitness::default() }],
+    };
+    assert!(tx.has_witness(), "a pegin witness alone makes the transaction a witness transaction");
+    check_tx(&tx, 0);
+    kani::cover!(w == 0, "single empty pegin-witness item");
+    core::mem::forget(tx);
+}
